@@ -129,21 +129,16 @@ func (t *Queue[T]) Shutdown(optionalShutdownFlags ...ShutdownFlag) {
 	t.ctxCancel()
 
 	t.heapMutex.Lock()
-	switch queuedElementsCount := len(t.heap); queuedElementsCount {
-	// if the queue is empty ...
-	case 0:
-		// ... stop waiting for new elements
-		t.waitCond.Broadcast()
-
-	// if the queue is not empty ...
-	default:
-		// ... empty it if the corresponding flag was set
-		if t.shutdownFlags.HasBits(CancelPendingElements) {
-			for range queuedElementsCount {
-				heap.Pop(&t.heap)
-			}
+	// empty the queue if the corresponding flag was set
+	if queuedElementsCount := len(t.heap); queuedElementsCount != 0 && t.shutdownFlags.HasBits(CancelPendingElements) {
+		for range queuedElementsCount {
+			heap.Pop(&t.heap)
 		}
 	}
+
+	// wake up every poller that waits for new elements (also if the queue is not empty: a poller can still be
+	// parked after an Add signalled a different one) so that it re-evaluates the shutdown flag
+	t.waitCond.Broadcast()
 	t.heapMutex.Unlock()
 }
 
